@@ -35,7 +35,7 @@ CHECKS.update({
                 technique="property-based testing against a reference model: exhaustive optimal search (Dijkstra) + independent DP + Griewank-Walther closed form; exhaustive box + dense (n,s) grid + step-size scan (local optimality of n_advance for n<=1600/6000, candidates confirmed by streams) + boundary probe sequence + Hypothesis configs",
                 text="Forward-step totals of Multistage (every RAM/DISK split, both trajectories), Revolve (random costs) and optimal_steps_binomial are compared with the true optimum (exhaustive search over all executable schedules for n<=8/11) and with DP/closed form to n=64/400."),
     "C06": dict(design_ref="DESIGN.md section 4 C06, 3.3", note=ORACLE_NOTE,
-                technique="property-based testing against a reference model: exhaustive optimal search over mixed schedules + independent DP; dense (n,s) grid to n=64/150, planner scan to n=220/420 (candidates confirmed by streams), boundary probe sequence in a pristine interpreter; metamorphic RAM vs DISK relation",
+                technique="property-based testing against a reference model: exhaustive optimal search over mixed schedules + independent DP; dense (n,s) grid to n=64/150, planner scan to n=220/420 (candidates confirmed by streams), boundary probe sequence in a pristine interpreter and cold many-units probes (336..450 units, each alone in a fresh interpreter); metamorphic RAM vs DISK relation",
                 text="Mixed forward-step totals compared with the optimum over all schedules whose units hold a restart checkpoint or one step's adjoint data (search n<=8/11, DP to 64/300); RAM and DISK streams must be equal up to the label; helper optimal_steps_mixed must agree."),
     "C07": dict(design_ref="DESIGN.md section 4 C07, 3.3", note=ORACLE_NOTE,
                 technique="property-based testing: differential against exhaustive hierarchical search and independent H-Revolve/Disk-Revolve DPs, plus the metamorphic cost relations of the statement; asymmetric dyadic cost vectors by construction, plus one-decimal and 2**(+-40)-rescaled cost units; dense DP grids and cost-table scan (candidates confirmed by streams)",
@@ -43,13 +43,13 @@ CHECKS.update({
     "C09": dict(design_ref="DESIGN.md section 4 C09", technique=STREAM_TECH + "; flag model from the documented per-class pass table; pass k compared tuple-for-tuple with pass 1 and re-executed", note=STREAM_NOTE,
                 text="is_running / is_exhausted read before the first next() and after every action, streams driven 3 next() calls past their end, multi-pass classes run for 1..3 passes with each repeat compared with pass 1 and executed by the reference executor."),
     "C13": dict(design_ref="DESIGN.md section 4 C13", note=ORACLE_NOTE,
-                technique="property-based testing: exact expected forward sweep + per-(pass, block) comparison with the Griewank-Walther closed form (validated by exhaustive search in-run); periods to 64, exhaustive full+partial-block box",
+                technique="property-based testing: exact expected forward sweep + per-(pass, block) comparison with the Griewank-Walther closed form (validated by exhaustive search in-run); periods to 64, exhaustive full+partial-block box; ladder of long blocks (72..330/700 steps) and a step-size scan (local optimality of n_advance for block lengths to 400/1200) used as a generator of TwoLevel cases",
                 text="Forward sweep must equal the periodic DISK-checkpoint sequence exactly; every period block of every pass must be recomputed with exactly the binomial optimum for binomial_snapshots+1 units; extra checkpoints only in the binomial storage. period<=6/8 exhaustive, to 16 generated."),
     "C14": dict(design_ref="DESIGN.md section 4 C14", note=STREAM_NOTE,
                 technique="property-based testing: metamorphic relation across all RAM/DISK splits of one (n, trajectory, s) group + harness-side stack tracking and tie-independent traffic optimum",
                 text="All splits of s produce shape-identical streams; each stack position keeps one label; RAM-labelled positions <= declared; DISK accesses equal total minus the k largest per-position access counts. Exhaustive n<=18/26, groups to n=120/400."),
     "C16": dict(design_ref="DESIGN.md section 4 C16", note="numba cannot be installed offline: the tabulated planner is run by CPython+NumPy with the unmodified source (module attribute mixed.numba forced to a sentinel); the compiled artefact itself is not exercised.",
-                technique="property-based testing: differential between the tabulated and the memoised planner (every table entry of the square table N=100/200 and of the tall-narrow table n<=320/640, s<=40/64, exhaustive) and between the streams produced on both code paths",
+                technique="property-based testing: differential between the tabulated and the memoised planner (every table entry of the square table N=100/200 and of the tall-narrow table n<=320/640, s<=40/64, exhaustive) and between the streams produced on both code paths, incl. cold many-units schedules (336/450 units) alone in a fresh interpreter",
                 text="Every entry (kind, length, cost) of mixed_steps_tabulation(N, N-1) for N=60/160 equals mixed_step_memoization; Mixed streams with the tabulated path forced equal the default streams by value and are executable."),
     "C17": dict(design_ref="DESIGN.md section 4 C17", note="Documented domain computed by the harness from the constructors/docstrings (DESIGN 2.1); negative unit counts and non-positive costs are outside the statement and never generated.",
                 technique="property-based testing: exhaustive box over valid AND invalid constructor tuples with a domain-membership oracle; generated valid tuples to n=160/400; cold (pristine-process) large-n probes to n=1000/2000",
@@ -58,7 +58,7 @@ CHECKS.update({
                 technique="property-based testing: field predicates on every emitted action + Hypothesis-generated actions and biased action pairs (==/!= truth table, repr round-trip, len/iter/in vs range); late-finalisation histories of the online classes",
                 text="Emitted actions of a stream sweep (incl. numpy-integer actions of the tabulated Mixed planner) are checked for the field predicates and value semantics; generated pairs check == / != never raise and equal type+args identity, repr round-trips, len/iteration/membership enumerate the covered steps."),
     "C19": dict(design_ref="DESIGN.md section 4 C19", note=ORACLE_NOTE,
-                technique="property-based testing: closed-form period oracle in exact rationals, same m required for 6-14 values of n per cost vector; per-segment Revolve optimum via Griewank-Walther",
+                technique="property-based testing: closed-form period oracle in exact rationals, same m required for 6-14 values of n per cost vector; per-segment Revolve optimum via Griewank-Walther; integer-ratio staircase, extreme cost ratios (2^30:1) and rescaled units (x2^+-40)",
                 text="For each (RAM units, costs) group the closed-form period m is computed exactly and every stream of the group must write DISK checkpoints exactly at 0, m, 2m, ... in the forward sweep, never later, read each once, and reverse every segment with the memory-only optimum."),
 })
 
